@@ -446,7 +446,7 @@ package main
 (func "(*main.store).reload"
   (props C18 C19 C04 C12 C17)
   (requires complete (and (not (= (. s dir) nil)) (not (= (. s hooks) nil))))
-  (modifies (. s dir) sent.NewStore)
+  (modifies (. s dir) sent.NewStore io.faults br.pos rd.pos)
   (send "NewStore" 0
     (requires only-after-successful-switch (and (= (callresult "store.NewDirFromConfig" 0 1) nil)
                                                 (= (callresult "(*store.Dir).Check" 0 0) nil)
@@ -465,13 +465,16 @@ package main
 
 (func "(*main.store).check" (props C16 C18)
   (requires has-dir (not (= (. s dir) nil)))
+  (modifies io.faults br.pos rd.pos)
   (callsite "(*store.Dir).Check" 0 (requires the-served-dir (= $0 (. s dir))))
   (ensures result-is-the-stores (= (. result err) (callresult "(*store.Dir).Check" 0 0))))
 (func "(*main.store).list" (props C06)
   (requires has-dir (not (= (. s dir) nil)))
+  (modifies io.faults br.pos rd.pos)
   (ensures result-is-the-stores (and (= (. result list) (callresult "(*store.Dir).List" 0 0)) (= (. result err) (callresult "(*store.Dir).List" 0 1)))))
 (func "(*main.store).listFull" (props C06)
   (requires has-dir (not (= (. s dir) nil)))
+  (modifies io.faults br.pos rd.pos)
   (ensures result-is-the-stores (and (= (. result list) (callresult "(*store.Dir).ListFull" 0 0)) (= (. result err) (callresult "(*store.Dir).ListFull" 0 1)))))
 */
 
